@@ -34,6 +34,8 @@ def run(ctx, rep):
     PR.check_combinators(fx, rep, "C05.6")
     R1.check_line_mapping_rule(fx, rep, "C05.4")
     PR.check_try_parse(fx, rep, "C05.7")
+    import api_rules as AR
+    AR.check_getters(fx, rep, "C05.api", "mapping::ParseError")
     # floor: combinator call sites in the record parsers (counted on the pinned tree: 34)
     calls = 0
     PR.use(fx)
